@@ -80,6 +80,7 @@ type Machine struct {
 	events     []event // Reach / Assert / Observe in program order
 	knownTag   string
 	crcs       []*idealSum
+	sumOf      map[*Term]*idealSum
 	names      map[string]int
 	params     map[string]uint64
 	extCache   map[*ssa.Function]externalFn
@@ -95,6 +96,7 @@ type Machine struct {
 	stubsUsed  map[string]int
 	findings   map[string]bool
 	bugs       int
+	collisionOnly int
 	nGlobals   int
 	bigFree    map[int][][]value
 	bigUsed    [][]value
@@ -159,6 +161,7 @@ func (m *Machine) assume(c *Term) {
 		return
 	}
 	m.pc = append(m.pc, c)
+	m.touch(c)
 	m.solver.Assert(c)
 }
 
@@ -224,6 +227,7 @@ func (m *Machine) decideN(what string, conds []*Term, vals []uint64) int {
 			feas = append(feas, i)
 			continue
 		}
+		m.touch(c)
 		r := m.solver.CheckWith(c)
 		switch {
 		case r == "sat":
@@ -300,6 +304,7 @@ func (m *Machine) concretize(what string, t *Term, limit int) uint64 {
 		return v
 	}
 	var vals []uint64
+	m.touch(t)
 	m.solver.Push()
 	for len(vals) <= limit {
 		r := m.solver.Check()
@@ -870,7 +875,7 @@ func (m *Machine) initAllowed(path string) bool {
 		return true
 	}
 	switch path {
-	case "github.com/hashicorp/raft", "io", "internal/oserror", "io/fs", "encoding/binary",
+	case "github.com/hashicorp/raft", "io", "internal/oserror", "io/fs", "encoding/binary", "context",
 		"github.com/benbjohnson/immutable", "github.com/segmentio/fasthash/fnv1a":
 		return true
 	}
